@@ -1081,6 +1081,7 @@ def probes(ctx, pending):
         dict(base, kind="spy", prefit=([0, 1, 3], [0.0, 1.0, 1.0], None), init_sb=True,
              ops=[dict(F, sb=False), dict(op="P", idx=[2], y=[1.0], sw=None, ub=True, sb=False)]),
         # pre-fitted ParzenWindowClassifier, no fit through the wrapper: predictions with / without speed-up
+        # (regression guard for /repo commit 1805c2fd: predict / predict_freq used to return predict_proba)
         dict(base, kind="pwc_rbf", prefit=([0, 1, 3], [0.0, 1.0, 1.0], None), ops=[full]),
         dict(base, kind="pwc_dy", prefit=([0, 1, 3], [0.0, 1.0, 1.0], None), init_sb=True, ops=[full, dict(op="C", a=[0], b=[1], fp="bogus", pp="all")]),
         # index below -n passes the validation when labels and weights are given
